@@ -141,6 +141,7 @@ pub fn safe() -> BoxedStrategy<String> {
         8 => one_of(&["\"a\"", "'b'", "\"\"", "\"a b\"", "\"x#{1+1}y\"", "foo", "bar-baz", "_x", "-moz-x", "a\\ b", "\\31 a", "x#{1}y", "#{a}b", "url(x.png)", "url(\"x y\")", "var(--x)", "var(--x, 1px)", "U+26", "!important", "true", "false", "null", "a, b", "a b", "[a b]", "(a, b)", "1 2 3", "1px solid red", "a / b", "10px/2px"]),
         8 => uni,
         1 => tricky,
+        2 => one_of(&["unquote(\"x\\a y\")", "#{\"l1\\a l2\"}", "\"q\\a r\"", "unquote(\"t\\9 u\")", "string.unquote(\"v\\d\\a w\")"]),
         8 => one_of(&["$a", "$c", "$a * 2", "$a + 1px", "nth($c, 2)", "map-get($b, k)", "length($c)", "f(2)", "f($a)", "1 + 2", "2 * 3.5", "10 % 3", "7 - 2", "\"a\" + \"b\"", "a + b", "1 + a", "math.div(10px, 4)", "math.div(1, 3)", "percentage(0.5)", "round(1.5)", "rgba(#abc, 0.5)", "lighten(red, 10%)", "mix(red, blue)", "darken(#abc, 5%)", "adjust-hue(red, 20deg)", "if(true, a, b)", "str-index(\"abc\", \"b\")", "unquote(\"x y\")", "quote(a)", "to-upper-case(\"é a\")", "calc(1px + 2%)", "calc(1px * 3)", "min(1px, 2px)", "max(1%, 2px)", "clamp(1px, 2px, 3px)", "type-of(1)", "inspect($b)", "join($c, d e)", "append($c, d, comma)", "1 == 1", "1 < 2", "not true", "true and false", "null or 1", "-$a", "+$a", "(1 + 2) * 3", "1/3", "(1/3)", "math.$pi", "1e3 * 1e3", "0.1 + 0.2", "math.div(1, 0)", "grayscale(#abc)", "invert(red)", "transparentize(red, .5)", "hsl(10, 20%, 30%)", "hsla(10, 20%, 30%, .4)", "rgb(1.5, 2.5, 3.5)", "#AbCdEf", "#abcf", "red", "Red", "transparent"]),
     ];
     leaf.prop_recursive(2, 8, 3, |inner| {
